@@ -1757,8 +1757,9 @@ def rule_fill_loops_end(out, tier):
 
 def rule_stream_reads_counted(out, tier):
     rid = "CB5"
-    out.rule(rid, "coded_stream.h CodedInputStream: after every stream_.read(...) the number of bytes actually obtained (stream_.gcount()) is taken on every path before "
-                  "the method returns — a read whose count is never looked at cannot notice that the stream ended inside the requested range", 1)
+    out.rule(rid, "coded_stream.h CodedInputStream: after every call that consumes input from stream_ (read, ignore, get, getline, readsome, seekg, peek) the number of bytes actually obtained "
+                  "(stream_.gcount()) or the stream state (fail/eof/good) is taken on every path before "
+                  "the method returns — a read or skip whose outcome is never looked at cannot notice that the stream ended inside the requested range", 1)
     roots, rc, err = dump(out.repo, "coded_stream.h")
     rel = BIN + "/coded_stream.h"
     if rc != 0 or not roots:
@@ -1788,10 +1789,10 @@ def rule_stream_reads_counted(out, tier):
             pending = False
             for kind, t, _nl in q.events:
                 u = t.replace(" ", "")
-                if kind == "call" and re.search(r"stream_\.read\(", u):
+                if kind == "call" and re.search(r"stream_\.(read|ignore|get|getline|readsome|seekg|peek)\(", u):
                     has_read = True
                     pending = True
-                elif "gcount()" in u:
+                elif "gcount()" in u or re.search(r"stream_\.(fail|eof|good|bad)\(\)|!stream_\b", u):
                     pending = False
             if pending and q.outcome != "throw":
                 bad = True
@@ -1799,7 +1800,7 @@ def rule_stream_reads_counted(out, tier):
             n += 1
             out.check(not bad and not cp.overflow, rid, "CodedInputStream.%s/stream_.read counted" % name, "%s:%d" % (rel, fn.get("_line", 0)),
                       "gcount() is taken after the read on every path",
-                      "a path returns after stream_.read(...) without ever taking stream_.gcount(): when the stream ends inside the requested bytes the destination keeps whatever it held and no error is raised")
+                      "a path returns after consuming from stream_ (read / ignore / ...) without ever taking stream_.gcount() or testing the stream state: when the stream ends inside the requested bytes the destination keeps whatever it held (or the skipped field counts as read) and no error is raised")
     if n == 0:
         out.undecided(rid, "CodedInputStream/stream reads", rel, "no stream_.read call found")
 
@@ -2085,6 +2086,79 @@ def rule_shift_in_destination_type(out, tier):
                               "the destination is `%s` but the shift is computed in `%s`: bits shifted beyond 32 are lost before the result is widened — every 64-bit varint above 2^32 decodes wrongly" % (lt, st))
     if n == 0:
         out.undecided(rid, "anchor/varint assembly", rel, "no `value |= x << shift` found")
+
+
+def rule_varint_decoders_agree(out, tier):
+    rid = "VL1"
+    out.rule(rid, "coded_stream.h: the varint decoders of CodedInputStream (the fast path over a local pointer and the path that refills the buffer) leave their loops under the same tests — "
+                  "the same break / return / throw guards, the refill test apart: what one accepts the other accepts, wherever in the buffer the value happens to start", 2)
+    roots, rc, err = dump(out.repo, "coded_stream.h")
+    rel = BIN + "/coded_stream.h"
+    if rc != 0 or not roots:
+        out.undecided(rid, "clang/coded_stream.h", rel, "clang could not parse the header: " + err[-300:])
+        return
+    for r in roots:
+        annotate_lines(r)
+    cls = find_class(roots, "CodedInputStream")
+    if cls is None:
+        out.undecided(rid, "CodedInputStream", rel, "class not found in the AST")
+        return
+
+    def norm(t):
+        t = re.sub(r"\s+", "", t)
+        t = re.sub(r"\b(local_)?buffer_ptr_?\b", "P", t)
+        return t
+
+    def exits(fn):
+        res = []
+        for loop in walk(body_of(fn)):
+            if loop.get("kind") not in ("WhileStmt", "ForStmt", "DoStmt"):
+                continue
+            for st in walk(loop):
+                if st.get("kind") != "IfStmt":
+                    continue
+                parts = [c for c in (st.get("inner") or []) if isinstance(c, dict)]
+                if len(parts) < 2:
+                    continue
+                cond, then = parts[0], parts[1]
+                ct = txt(cond)
+                if "buffer_end_ptr_" in ct or "Remaining" in ct or "Fill" in "".join(txt(c) for c in walk(then) if c.get("kind") in ("CallExpr", "CXXMemberCallExpr")):
+                    continue  # the refill test
+                kinds = set()
+                for x in walk(then):
+                    if x.get("kind") == "BreakStmt":
+                        kinds.add("break")
+                    elif x.get("kind") == "ReturnStmt":
+                        kinds.add("return")
+                    elif x.get("kind") == "CXXThrowExpr":
+                        kinds.add("throw")
+                for k in sorted(kinds):
+                    res.append((k, norm(ct), st.get("_line", 0)))
+        return res
+
+    fam = []
+    seen = set()
+    for name, fn in functions_in(cls):
+        if name and re.match(r"ReadVarInteger", name) and fn.get("id") not in seen:
+            seen.add(fn.get("id"))
+            ex = exits(fn)
+            if ex:
+                fam.append((name, fn, ex))
+    if len(fam) < 2:
+        out.undecided(rid, "anchor/varint decoders", rel, "fewer than two varint decoders with a loop found")
+        return
+    ref_name, ref_fn, ref = fam[0]
+    ref_set = sorted((k, c) for k, c, _ in ref)
+    for name, fn, ex in fam[1:]:
+        cur = sorted((k, c) for k, c, _ in ex)
+        extra = [e for e in ex if (e[0], e[1]) not in ref_set]
+        missing = [e for e in ref if (e[0], e[1]) not in cur]
+        line = (extra or missing or [(0, 0, fn.get("_line", 0))])[0][2]
+        out.check(cur == ref_set, rid, "%s = %s/loop exits" % (name, ref_name), "%s:%d" % (rel, line),
+                  "both leave the loop under %s" % ", ".join("%s if %s" % e for e in ref_set),
+                  "%s leaves its loop under %s, %s under %s: a value that %s decodes (a maximum-length varint, say) is rejected or decoded differently when it happens to straddle a refill of the buffer" % (
+                      name, "; ".join("%s if %s" % (k, c) for k, c in cur) or "no test", ref_name, "; ".join("%s if %s" % e for e in ref_set), ref_name))
+    out.ok(rid, "%s/reference" % ref_name, "%s:%d" % (rel, ref_fn.get("_line", 0)), "loop exits: " + "; ".join("%s if %s" % e for e in ref_set))
 
 
 def rule_pointer_offset_units(out, tier):
@@ -2702,11 +2776,11 @@ def rule_no_swallowed_eof(out, tier):
 
 
 RULES = {
-    "C16": [rule_coded_stream_bounds, rule_blocks, rule_fill_loops_end, rule_stream_reads_counted, rule_no_swallowed_eof, rule_ndjson_lookahead],
-    "C01": [rule_coded_stream_bounds, rule_serializer_twins, rule_output_order, rule_reader_overwrites, rule_trivial_trait_set, rule_blocks, rule_zigzag_width, rule_integer_dispatch, rule_shift_in_destination_type, rule_varint_constants],
+    "C16": [rule_coded_stream_bounds, rule_blocks, rule_fill_loops_end, rule_stream_reads_counted, rule_no_swallowed_eof, rule_ndjson_lookahead, rule_varint_decoders_agree],
+    "C01": [rule_varint_decoders_agree, rule_coded_stream_bounds, rule_serializer_twins, rule_output_order, rule_reader_overwrites, rule_trivial_trait_set, rule_blocks, rule_zigzag_width, rule_integer_dispatch, rule_shift_in_destination_type, rule_varint_constants],
     "C15": [rule_cxx_header, rule_ndjson_header, rule_no_static_locals_from_arguments],
     "C02": [rule_ndjson_lookahead, rule_ndjson_field_omission],
     "C04": [rule_cxx_header, rule_output_order, rule_ndjson_header, rule_no_static_locals_from_arguments],
-    "C03": [rule_output_order, rule_reader_overwrites, rule_integer_dispatch, rule_shift_in_destination_type, rule_zigzag_width, rule_varint_constants],
+    "C03": [rule_varint_decoders_agree, rule_output_order, rule_reader_overwrites, rule_integer_dispatch, rule_shift_in_destination_type, rule_zigzag_width, rule_varint_constants],
     "C17": [rule_reader_overwrites, rule_blocks, rule_trivial_trait_set, rule_output_order, rule_pointer_offset_units, rule_coded_stream_bounds],
 }
